@@ -1015,6 +1015,12 @@ pub fn unobtainable_cases(report: &mut Report, id: &str) -> u64 {
         ("unknown filter-set", "FLTR-GONE", Plan::default()),
         ("unknown filter-set in a union", "(FLTR-GONE OR AS65002)", Plan::default()),
         ("F answer to the filter-set query", "FLTR-F", Plan { faults: vec![], fault_on_query: vec![("!mfilter-set,FLTR-F".into(), Fault::Other)] }),
+        // constructs that cannot be evaluated outside a peering / by a prefix-filter generator: no data either
+        ("PeerAS outside a peering", "PeerAS", Plan::default()),
+        ("PeerAS in a conjunction", "(AS-A AND PeerAS)", Plan::default()),
+        ("PeerAS in a union", "(AS65004 OR PeerAS)", Plan::default()),
+        ("AS-path regular expression", "<^AS65000+$>", Plan::default()),
+        ("filter-set referring to itself", "FLTR-LOOP", Plan::default()),
     ];
     for (what, expr, plan) in more {
         n += 1;
